@@ -5,7 +5,9 @@ package queue
 // recorded by a pass-through proxy target: that is "what the queue accepted"; the monitor compares
 // every delivery attempt (first, retries, after restarts) with it.
 //
-//   C10 smtp <hist> <u|t|8|-...> A=<0|1> F=<hex addr> R=<hex addr>,.. H=<hex header blob> B=<kind>:<len>:<seed>
+//   C10 smtp <hist> <u|t|8|-...> A=<0|1> F=<hex addr> R=<hex addr>,.. H=<hex header blob> B=<kind>:<len>:<seed> [D=<0|1|2>]
+//
+// D: the queue's bounce pipeline (absent / takes the failure reports / refuses them); default 0.
 //
 // The same execution is also handed to the Lean model as a synthesized `C10 run` op line built from
 // the proxy's record.
@@ -30,6 +32,7 @@ import (
 
 	"github.com/emersion/go-message/textproto"
 	"github.com/emersion/go-smtp"
+	"github.com/foxcpp/maddy/framework/address"
 	"github.com/foxcpp/maddy/framework/buffer"
 	"github.com/foxcpp/maddy/framework/config"
 	"github.com/foxcpp/maddy/framework/module"
@@ -49,6 +52,9 @@ type c10E2E struct {
 	// is stopped right before Commit): the client gets its 250, nothing is dispatched, the server
 	// "restarts" before the first attempt
 	stopBeforeCommit bool
+	// the header value and the metadata object the pipeline handed over (it still holds both)
+	srcHdr  textproto.Header
+	srcMeta *module.MsgMetadata
 }
 
 type c10Proxy struct {
@@ -134,6 +140,7 @@ func (d *c10ProxyDelivery) Body(ctx context.Context, header textproto.Header, bo
 	if m.Conn != nil {
 		d.e.connAuth = m.Conn.AuthUser
 	}
+	d.e.srcHdr, d.e.srcMeta = header, m
 	d.e.w.tgt.mu.Lock()
 	d.e.w.tgt.accBody = acc.body
 	d.e.w.tgt.mu.Unlock()
@@ -299,7 +306,7 @@ func c10DotStuff(msg []byte) []byte {
 
 func c10Smtp(out *vh.Out, ep *c10Endpoint, op string) {
 	t := strings.Fields(op)
-	if len(t) != 9 || t[1] != "smtp" {
+	if (len(t) != 9 && len(t) != 10) || t[1] != "smtp" {
 		out.Note("unparsable smtp op")
 		return
 	}
@@ -333,6 +340,9 @@ func c10Smtp(out *vh.Out, ep *c10Endpoint, op string) {
 	user, pass, secrets := c10Secrets(tag)
 	w := c10NewWorld(steps, secrets)
 	defer w.cleanup()
+	if len(t) == 10 && strings.HasPrefix(t[9], "D=") {
+		w.dsnMode, _ = strconv.Atoi(t[9][2:])
+	}
 	e := &c10E2E{w: w, acc: &c10Accepted{envUTF8: true}}
 	e.stopBeforeCommit = len(steps) > 0 && steps[0].restart && steps[0].commit
 	ep.auth.mu.Lock()
@@ -537,14 +547,30 @@ func c10Smtp(out *vh.Out, ep *c10Endpoint, op string) {
 	if useAuth {
 		authN = 2
 	}
-	runOp := fmt.Sprintf("C10 run %s %s %s:9:%d:0:%d S=%s J=%s from=%d to=%s orc=%s f=%s%s%s00 auth=%d late=1", strings.Join(hist, "."), hdr,
+	var xs []string
+	for i, s := range strs {
+		if i > 0 {
+			if _, err := address.SelectIDNA(acc.utf8, s); err != nil {
+				xs = append(xs, strconv.Itoa(i))
+			}
+		}
+	}
+	xtab := "-"
+	if len(xs) > 0 {
+		xtab = strings.Join(xs, ".")
+	}
+	runOp := fmt.Sprintf("C10 run %s %s %s:9:%d:0:%d S=%s J=%s from=%d to=%s orc=%s f=%s%s%s00 auth=%d late=1 dsn=%d X=%s peer=-", strings.Join(hist, "."), hdr,
 		e.bufKind, len(acc.body), c10Digest(acc.body), strings.Join(ss, ","), jtab, fromI, strings.Join(toI, "."), orc,
-		c10Bit(acc.utf8), c10Bit(acc.rtls), c10Bit(acc.tro), authN)
+		c10Bit(acc.utf8), c10Bit(acc.rtls), c10Bit(acc.tro), authN, w.dsnMode, xtab)
 	obs, fin := w.observation(strs, acc.id)
 	out.Corr(runOp, obs)
 
 	// --- monitor
 	w.monitor(out, op, acc, true)
+	if e.srcMeta != nil {
+		c10SharedUnchanged(out, op, e.srcHdr, e.srcMeta, acc)
+	}
+	w.reportStats(out, "smtp", acc)
 	if useAuth && e.connAuth != user {
 		out.Note("endpoint did not record the authenticated user in the connection state")
 	}
@@ -643,6 +669,9 @@ func c10GenSmtp(r *vh.Rng, big bool, edge int) string {
 	if r.Chance(25) {
 		blob = append([]byte("TLS-Required: No\r\n"), blob...)
 	}
+	if r.Chance(20) {
+		blob = append([]byte("Bcc: hidden@example.org,\r\n hidden2@example.net\r\n"), blob...)
+	}
 	if r.Chance(10) && edge < 0 { // a header the endpoint's parser refuses
 		blob = append([]byte(" leading space\r\n"), blob...)
 	}
@@ -663,8 +692,9 @@ func c10GenSmtp(r *vh.Rng, big bool, edge int) string {
 			n = []int{0, 2}[edge%2] // quick tier: the 1 MiB bodies only with a restart before the first / the next attempt
 		}
 	}
-	return fmt.Sprintf("C10 smtp %s %s A=%s F=%s R=%s H=%s B=%d:%d:%d", strings.Join(steps, "."), opts, c10Bit(r.Chance(60)),
+	op := fmt.Sprintf("C10 smtp %s %s A=%s F=%s R=%s H=%s B=%d:%d:%d", strings.Join(steps, "."), opts, c10Bit(r.Chance(60)),
 		c10HexOrEmpty([]byte(from)), strings.Join(rc, ","), c10HexOrEmpty(blob), r.Intn(4), n, r.Next()%1000000007)
+	return op + fmt.Sprintf(" D=%d", []int{1, 1, 1, 1, 1, 1, 1, 2, 0, 0}[r.Intn(10)])
 }
 
 func TestVerifC10Smtp(t *testing.T) {
@@ -715,6 +745,11 @@ func TestVerifC10Smtp(t *testing.T) {
 		"C10 smtp R.aPo - A=0 F=" + vh.HexBytes([]byte("a@example.org")) + " R=" + vh.HexBytes([]byte("b@example.org")) + " H=0d0a B=0:0:1",
 		"C10 smtp aPt.r.aPo - A=0 F=" + vh.HexBytes([]byte("a@example.org")) + " R=" + vh.HexBytes([]byte("b@example.org")) + " H=" + vh.HexBytes([]byte("Subject: x\r\n\r\n")) + " B=0:0:1",
 		"C10 smtp aAt.r.r.aPt.r 8 A=1 F=- R=" + vh.HexBytes([]byte("b@example.org")) + " H=0d0a B=0:0:1",
+		// a failure report between attempts (one recipient given up while the other stays pending), header with Bcc
+		"C10 smtp aPpt.aPot.r.aPoo 8 A=1 F=" + vh.HexBytes([]byte("a@example.org")) + " R=" + vh.HexBytes([]byte("gone@example.org")) + "," + vh.HexBytes([]byte("b@example.org")) +
+			" H=" + vh.HexBytes([]byte("From: a@example.org\r\nBcc: hidden@example.org\r\nSubject: x\r\n\r\n")) + " B=0:100:3 D=1",
+		"C10 smtp aAtp.r.aPto.aPoo u A=0 F=" + vh.HexBytes([]byte("a@example.org")) + " R=" + vh.HexBytes([]byte("b@example.org")) + "," + vh.HexBytes([]byte("ю́зер@example.org")) +
+			" H=" + vh.HexBytes([]byte("Bcc: hidden@example.org\r\nSubject: x\r\n\r\n")) + " B=0:100:4 D=2",
 	} {
 		c10Smtp(out, ep, op)
 	}
